@@ -258,11 +258,11 @@ Theorem C15_ts_item it st text st' : c15_item_plain C15ts TypeScript ts_const_na
   ts_write_item uc cfg it st = Ok (text, st') ->
   exists parts,
     text = text_of (c15_file_pieces C15ts parts) /\
-    docs_of (c15_file_pieces C15ts parts) = c15_item_docs it /\
-    c15_contained C15ts LCode (mark (c15_file_pieces C15ts parts)) = forallb safe_ts (c15_item_docs it).
+    docs_of (c15_file_pieces C15ts parts) = map c15_esc_ts (c15_item_docs it) /\
+    c15_contained C15ts LCode (mark (c15_file_pieces C15ts parts)) = true.
 Proof.
   intros Hp H. destruct (Decomp_contained _ _ _ (ts_item_decomp _ _ _ _ Hp H)) as (ps & Ht & Hd & Hc).
-  exists ps. rewrite c15_sites_docs in Hd. rewrite c15_sites_ok_false in Hc by discriminate. auto.
+  exists ps. rewrite c15_sites_text_ts in Hd. rewrite c15_sites_ok_ts in Hc. auto.
 Qed.
 End TSPlain.
 
@@ -289,7 +289,7 @@ Example C15_ts_item_nonvacuous :
   forallb (c15_item_plain C15ts TypeScript (ts_const_name uc_exec)) [c15_nv_struct; c15_nv_enum] = true /\
   c15_mappings_plain C15ts (ts_type_mappings c15_ts_cfg) = true /\
   match ts_write_item uc_exec c15_ts_cfg c15_nv_enum [] with
-  | Ok (text, _) => good_C15 C15ts (c15_item_docs c15_nv_enum) text
+  | Ok (text, _) => good_C15 C15ts (map c15_esc_ts (c15_item_docs c15_nv_enum)) text
   | _ => false
   end = true.
 Proof. repeat split; vm_compute; reflexivity. Qed.
@@ -547,20 +547,13 @@ Theorem C15_ts_file pd text :
     topsort (items_of pd) = Ok items /\ Permutation items (items_of pd) /\
     (trailer = [] \/ trailer = c15_ts_trailer_docs) /\
     text = text_of (c15_file_pieces C15ts parts) /\
-    docs_of (c15_file_pieces C15ts parts) = flat_map c15_item_docs items ++ trailer /\
-    c15_contained C15ts LCode (mark (c15_file_pieces C15ts parts)) = forallb safe_ts (flat_map c15_item_docs (items_of pd)).
+    docs_of (c15_file_pieces C15ts parts) = map c15_esc_ts (flat_map c15_item_docs items ++ trailer) /\
+    c15_contained C15ts LCode (mark (c15_file_pieces C15ts parts)) = true.
 Proof.
   intros Hv Hp Hk H. destruct (ts_file_decomp _ _ Hv Hp Hk H) as (items & trailer & Ht & Hperm & Htr & HD).
   destruct (Decomp_contained _ _ _ HD) as (ps & Htext & Hd & Hc).
-  exists items, trailer, ps. rewrite c15_sites_docs in Hd. rewrite c15_sites_ok_false in Hc by discriminate.
-  repeat split; auto. rewrite Hc, forallb_app.
-  replace (forallb (c15_safe C15ts false) trailer) with true by (destruct Htr as [-> | ->]; vm_compute; reflexivity).
-  rewrite andb_true_r. change (c15_safe C15ts false) with safe_ts.
-  apply c15_forallb_perm. clear -Hperm. induction Hperm; cbn [flat_map].
-  - constructor.
-  - now apply Permutation_app_head.
-  - rewrite !app_assoc. apply Permutation_app_tail, Permutation_app_comm.
-  - etransitivity; eauto.
+  exists items, trailer, ps. rewrite c15_sites_text_ts in Hd. rewrite c15_sites_ok_ts in Hc.
+  repeat split; auto.
 Qed.
 End TSFile.
 
@@ -582,7 +575,7 @@ Example C15_ts_file_nonvacuous :
   forallb (c15_item_plain C15ts TypeScript (ts_const_name uc_exec)) (items_of c15_nv_pd) = true /\
   forallb c15_ts_item_keys_ok (items_of c15_nv_pd) = true /\
   match ts_generate uc_exec c15_nv_file_cfg c15_nv_pd with
-  | Ok text => good_C15 C15ts (flat_map c15_item_docs (items_of c15_nv_pd)) text &&
+  | Ok text => good_C15 C15ts (map c15_esc_ts (flat_map c15_item_docs (items_of c15_nv_pd))) text &&
                contains_sub (lit "key === ""when""") text && contains_sub (lit "Generated by typeshare 1.13.2") text
   | _ => false
   end = true.
